@@ -64,6 +64,12 @@ func init() {
 	mutant(&Mutant{Name: "c05-skiptag-ends-at-pi-close", Property: "C05", File: "svg/svg.go",
 		Old: "t.TokenType == xml.EndTagToken || t.TokenType == xml.StartTagCloseVoidToken {", New: "t.TokenType == xml.EndTagToken || t.TokenType == xml.StartTagCloseVoidToken || t.TokenType == xml.StartTagClosePIToken {",
 		Rule: "R05.14", Construct: "skipTag/depth pairs"})
+	mutant(&Mutant{Name: "c05-attribute-scratch-not-reset", Property: "C05", File: "svg/buffer.go",
+		Old: "\t\tz.attrBuffer = z.attrBuffer[:len(hashes)]\n\t\tfor i := range z.attrBuffer {\n\t\t\tz.attrBuffer[i] = nil\n\t\t}\n", New: "\t\tz.attrBuffer = z.attrBuffer[:len(hashes)]\n",
+		Rule: "R05.12", Construct: "reused z.attrBuffer is reset"})
+	mutant(&Mutant{Name: "c05-coordinates-flushed-mid-command", Property: "C05", File: "svg/pathdata.go",
+		Old: "\t\t} else if n := parse.Number(b[i:]); n > 0 {\n", New: "\t\t} else if n := parse.Number(b[i:]); n > 0 {\n\t\t\tif len(p.coords) == 840 {\n\t\t\t\tj += p.copyInstruction(b[j:], cmd)\n\t\t\t\tp.coords = p.coords[:0]\n\t\t\t\tp.coordFloats = p.coordFloats[:0]\n\t\t\t}\n",
+		Rule: "R05.15", Construct: "at a command boundary"})
 	mutant(&Mutant{Name: "c05-drop-title", Property: "C05", File: "svg/svg.go",
 		Old: "\t\t\tif tag == Metadata {\n\t\t\t\tt.Data = nil\n", New: "\t\t\tif tag == Metadata {\n\t\t\t\tt.Data = nil\n\t\t\t} else if tag == Style {\n\t\t\t\tt.Data = nil\n",
 		Rule: "R05.3", Construct: "element dropped"})
@@ -85,6 +91,7 @@ func runC05(c *Ctx) {
 	c.r0510(pk)
 	c.r0513(pk)
 	c.r0514(pk)
+	c.r0515(pk)
 	// Inline decides whether the root element keeps its xmlns: it is a per-call fact and must not be written
 	// into the shared option struct (a later standalone document would lose its namespace)
 	c.alsoUnder(map[string]string{"R13.1": "R05.11"}, func(construct string) bool { return strings.Contains(construct, "svg.") }, func() { c.r131() })
@@ -1320,4 +1327,51 @@ func (c *Ctx) r0514(pk *packages.Package) {
 		good := okAll && nUp >= 1 && nDown >= 1 && want(ups, "StartTagToken") && want(downs, "EndTagToken", "StartTagCloseVoidToken")
 		c.R.Check(good, rule, "svg."+name+"/depth pairs", c.pos(fd), "raised under StartTagToken, lowered under EndTagToken / StartTagCloseVoidToken", fmt.Sprintf("the depth counter is raised under %v and lowered under %v (every change under a token-kind test: %v): a kind that belongs to no open/close pair ends the element early or late", sortedKeys(ups), sortedKeys(downs), okAll))
 	}
+}
+
+// R05.15: a command's coordinates are emitted in one piece.
+func (c *Ctx) r0515(pk *packages.Package) {
+	const rule = "R05.15"
+	c.R.Rule(rule, "svg.(*PathData).copyInstruction gives the first coordinate pair of M/m the meaning `moveto` and all further pairs the meaning `lineto`, and it decides per call whether the command letter can be left out. It must therefore receive the whole coordinate run of a command at once: in ShortenPathData every call of copyInstruction inside the scanning loop is dominated by the outcome `a command letter was read` (the test on pathCmds[…]); the only other call follows the loop. A flush in the middle of a run (`M` followed by 2100 implicit lineto pairs, cut after 4200 numbers) turns a lineto into a moveto and `z` closes to the wrong point")
+	fd := c.fn(rule, pk, "PathData.ShortenPathData")
+	if fd == nil {
+		return
+	}
+	info := pk.TypesInfo
+	g := c.graph(pk, fd)
+	var loop *ast.ForStmt
+	ast.Inspect(fd.Body, func(q ast.Node) bool {
+		if fs, ok := q.(*ast.ForStmt); ok && loop == nil {
+			loop = fs
+		}
+		return true
+	})
+	if loop == nil {
+		c.R.Unres(rule, "svg.PathData.ShortenPathData/scanning loop", c.pos(fd), "no for loop found")
+		return
+	}
+	n, inLoop := 0, 0
+	for _, y := range g.Nodes {
+		a := y.Ast()
+		if a == nil || y.Kind != flow.KStmt {
+			continue
+		}
+		for _, call := range findCalls(info, a, false, load.Mod+"/svg.(PathData).copyInstruction") {
+			n++
+			if call.Pos() < loop.Pos() || call.End() > loop.End() {
+				c.R.OK(rule, fmt.Sprintf("svg.PathData.ShortenPathData/copyInstruction#%d at a command boundary", n), c.pos(call), "after the scanning loop (end of the path data)")
+				continue
+			}
+			inLoop++
+			good := false
+			for _, f := range g.DomFacts(y) {
+				if f.Value && f.Test.Kind == flow.KCond && strings.Contains(str(f.Test.Expr), "pathCmds[") {
+					good = true
+				}
+			}
+			c.R.Check(good, rule, fmt.Sprintf("svg.PathData.ShortenPathData/copyInstruction#%d at a command boundary", n), c.pos(call), "only where a command letter was read", "the coordinates read so far are emitted although no new command letter was read: the rest of the same command is later emitted by a second call, whose first pair is taken for a moveto (M) and whose command letter is decided afresh")
+		}
+	}
+	c.R.Floor(rule, "copyInstruction calls in ShortenPathData", n, 2)
+	c.R.Floor(rule, "copyInstruction calls inside the scanning loop", inLoop, 1)
 }
